@@ -40,6 +40,8 @@ pub struct SchedTls {
     pub created: RefCell<Vec<(Class, u64)>>,
     pub pending: RefCell<[Option<Event>; MAX_THREADS]>,
     pub other_ops: Cell<u64>,
+    /// remaining hooked operations the harness itself may perform (drain etc.); u64::MAX = unlimited
+    pub harness_budget: Cell<u64>,
     stacks: RefCell<Vec<DefaultStack>>,
 }
 
@@ -56,6 +58,7 @@ thread_local! {
         created: RefCell::new(Vec::new()),
         pending: RefCell::new([None; MAX_THREADS]),
         other_ops: Cell::new(0),
+        harness_budget: Cell::new(u64::MAX),
         stacks: RefCell::new(Vec::new()),
     };
 }
@@ -69,6 +72,16 @@ pub fn install_hook() {
                 let tid = s.cur_tid.get();
                 if ev.kind == verif_hooks::Kind::Other {
                     s.other_ops.set(s.other_ops.get() + 1);
+                }
+                if tid < 0 {
+                    let b = s.harness_budget.get();
+                    if b != u64::MAX {
+                        if b == 0 {
+                            s.harness_budget.set(u64::MAX);
+                            std::panic::resume_unwind(Box::new(crate::rec::BudgetExceeded));
+                        }
+                        s.harness_budget.set(b - 1);
+                    }
                 }
                 if tid >= 0 {
                     let skip = s.noyield.borrow().contains(&ev.obj);
@@ -127,6 +140,18 @@ pub fn begin_execution() {
 
 pub fn set_cur_op(tid: usize, opi: u8) {
     SCHED.with(|s| s.cur_op[tid].set(opi));
+}
+
+/// Run `f` as the harness with a budget of hooked operations; `None` if it was exceeded or `f` panicked.
+pub fn as_harness_budgeted<R>(logging: bool, budget: u64, f: impl FnOnce() -> R) -> Option<R> {
+    SCHED.with(|s| s.harness_budget.set(budget));
+    let r = std::panic::catch_unwind(std::panic::AssertUnwindSafe(|| as_harness(logging, f)));
+    SCHED.with(|s| {
+        s.harness_budget.set(u64::MAX);
+        s.cur_tid.set(HARNESS_TID);
+        s.logging.set(true);
+    });
+    r.ok()
 }
 
 pub fn take_log() -> Vec<LogEntry> {
